@@ -156,10 +156,12 @@ theorem parser_get_flag_model (g : Group) :
 theorem group4a_get_minute :
     c_rdsparser_group4a_get_minute [(a : Int), b, c, d] = ((d / 64 % 64 : Nat) : Int) := by
   have h := and_mask d 4032 6 6 64 64 (by decide) (by decide) (by decide) (by decide)
-  simp only [c_rdsparser_group4a_get_minute, d0, d1, d2, d3, band_lit, shr_lit, u8_nat, h]
+  -- the same field written shift-then-mask: `(d >> 6) & 0x3F`
+  have h' : d / 2 ^ 6 &&& 63 = d / 64 % 64 := Nat.and_two_pow_sub_one_eq_mod (d / 2 ^ 6) 6
+  simp only [c_rdsparser_group4a_get_minute, d0, d1, d2, d3, band_lit, shr_lit, u8_nat, h, h']
   omega
 
-theorem group4a_get_hour :
+theorem group4a_get_hour (hd : d < 65536) :
     c_rdsparser_group4a_get_hour [(a : Int), b, c, d] =
       (((c % 2) * 16 + d / 4096 % 16 : Nat) : Int) := by
   have h1 := and_mask d 61440 12 4 4096 16 (by decide) (by decide) (by decide) (by decide)
@@ -167,8 +169,11 @@ theorem group4a_get_hour :
   simp only [c_rdsparser_group4a_get_hour, d0, d1, d2, d3, band_lit, shr_lit, shl_lit, bor_nat, u8_nat, h1]
   have e1 : (c &&& 1) * 2 ^ 4 % 256 = c % 2 * 16 := by rw [Nat.and_one_is_mod]; omega
   have e2 : d / 4096 % 16 * 4096 / 2 ^ 12 = d / 4096 % 16 := by omega
-  rw [e1, e2, h2]
-  congr 1; omega
+  -- block D is a uint16_t, so the mask before the shift may be omitted (`d >> 12`)
+  have e2' : d / 2 ^ 12 = d / 4096 % 16 := by omega
+  first
+    | (rw [e1, e2, h2]; congr 1; omega)
+    | (rw [e1, e2', h2]; congr 1; omega)
 
 theorem group4a_get_mjd (hc : c < 65536) :
     c_rdsparser_group4a_get_mjd [(a : Int), b, c, d] =
@@ -192,13 +197,13 @@ theorem group4a_get_time_offset :
   rcases h3 with h3 | h3 <;> simp [h3] <;> unfold i8 <;> omega
 
 /-- the four clock-time fields together are the model's `ctFields` -/
-theorem ctFields_eq (g : Group) (hc : g.c < 65536) :
+theorem ctFields_eq (g : Group) (hc : g.c < 65536) (hd : g.d < 65536) :
     let data := [(g.a : Int), g.b, g.c, g.d]
     ((c_rdsparser_group4a_get_mjd data, c_rdsparser_group4a_get_hour data,
       c_rdsparser_group4a_get_minute data, c_rdsparser_group4a_get_time_offset data) :
         Int × Int × Int × Int) =
       (((ctFields g).1 : Int), ((ctFields g).2.1 : Int), ((ctFields g).2.2.1 : Int), (ctFields g).2.2.2) := by
-  simp only [group4a_get_mjd _ _ _ _ hc, group4a_get_hour, group4a_get_minute,
+  simp only [group4a_get_mjd _ _ _ _ hc, group4a_get_hour _ _ _ _ hd, group4a_get_minute,
     group4a_get_time_offset, ctFields]
 
 end getters
